@@ -505,8 +505,15 @@ void cmi_event_add_waiter(const uint64_t key, struct cmb_process *pp)
 bool cmi_event_remove_waiter(const uint64_t key, const struct cmb_process *pp)
 {
     cmb_assert_release(event_queue != NULL);
-    cmb_assert_release(cmi_hashheap_count(event_queue) > 0u);
-    cmb_assert_release(cmi_hashheap_is_enqueued(event_queue, key));
+
+    /*
+     * The event may already have happened (or been canceled) with our wakeup
+     * call still pending in the event queue, make sure that does not happen.
+     */
+    (void)cmb_event_pattern_cancel(wakeup_event_event, pp, CMB_ANY_OBJECT);
+    if (!cmi_hashheap_is_enqueued(event_queue, key)) {
+        return false;
+    }
 
     struct event_peek *tmp = (struct event_peek *)cmi_hashheap_item(event_queue, key);
     struct cmi_slist_head *whead = &(tmp->waiters);
